@@ -145,7 +145,7 @@ def fn_case(draw):
         sites.append(args)
     shape = draw(st.sampled_from(['plus', 'array', 'nested', 'alone']))
     return {'name': name, 'sites': sites, 'shape': shape, 'ret': draw(st.sampled_from(['int', 'int', 'text', 'list', 'none', 'float', 'bool', 'date', 'tuple', 'emptytext', 'zero', 'nested', 'bigint'])),
-            'callable': draw(st.sampled_from(['function', 'function', 'function', 'empty-mapping', 'zero-length', 'bound-method'])), 'listeners': draw(st.sampled_from([0, 0, 0, 1, 2, 3]))}
+            'callable': draw(st.sampled_from(['function', 'function', 'function', 'empty-mapping', 'zero-length', 'bound-method'])), 'listeners': draw(st.sampled_from([0, 0, 0, 1, 2, 3, 16]))}
 
 
 REF_ENV = {'vars': {'v_a': 4, 'v_b': 9}, 'cells': {'B2': 6}, 'funcs': {}}
@@ -208,7 +208,7 @@ def check_function(case):
         nodes = nodes[:1]
     text = gf.render(top)
     env = Env(vars={'v_a': 4, 'v_b': 9, 'v_err': errors().REF}, cells={'B2': 6}, funcs={name: recorder})
-    passive_listeners(env.P, case.get('listeners', 0) & 3)
+    passive_listeners(env.P, case.get('listeners', 0) & 19)
     r = env.parse(text)
     d = 'function %s registered; %s ' % (name, text)
     if r['error'] is not None:
@@ -321,7 +321,7 @@ def unknown_case(draw):
         node = ['call', draw(free_fn), args]
     else:
         node = ['var', draw(free_var)]
-    return {'node': node, 'pos': draw(st.sampled_from(POSITIONS)), 'op': draw(st.sampled_from(gf.ARITH + gf.CMP + ['&'])), 'ctx': draw(arg_tree), 'listeners': draw(st.sampled_from([0, 0, 0, 1, 2, 3, 15]))}
+    return {'node': node, 'pos': draw(st.sampled_from(POSITIONS)), 'op': draw(st.sampled_from(gf.ARITH + gf.CMP + ['&'])), 'ctx': draw(arg_tree), 'listeners': draw(st.sampled_from([0, 0, 0, 1, 2, 3, 15, 16, 19]))}
 
 
 def embed(node, pos, op, ctx):
@@ -351,6 +351,21 @@ def embed(node, pos, op, ctx):
 def passive_listeners(P, digest):
     """A host that looks every name up in a table of its own and hands the setter whatever it finds - here nothing (None) - must not change name resolution.
     Registered on some of the four events, chosen by the case."""
+    if digest & 16:
+        # an observing listener that looks something else up on this very parser while it is being notified, and answers nothing
+        busy = []
+
+        def observe(*a):
+            if not busy:
+                busy.append(1)
+                try:
+                    P.parse('v_side+SIDE(2)')
+                finally:
+                    busy.pop()
+        P.set_variable('v_side', 0.2)
+        P.set_function('SIDE', lambda x: 'CALLED')
+        P.on('callVariable', observe)
+        P.on('callFunction', observe)
     for bit, kind in enumerate(('callVariable', 'callFunction', 'callCellValue', 'callRangeValue')):
         if digest >> bit & 1:
             if kind == 'callVariable':
@@ -509,7 +524,7 @@ def unknown_key(c):
 
 LAWS = [
     Law('variable_identity', check_variable, quick=3000, thorough=100000, shards=(8, 16), classes=var_classes,
-        strategy=st.fixed_dictionaries({'name': var_name, 'value': py_value, 'others': st.lists(st.tuples(var_name, py_value).map(list), max_size=3), 'listeners': st.sampled_from([0, 0, 0, 1, 3, 15])}),
+        strategy=st.fixed_dictionaries({'name': var_name, 'value': py_value, 'others': st.lists(st.tuples(var_name, py_value).map(list), max_size=3), 'listeners': st.sampled_from([0, 0, 0, 1, 3, 15, 16, 17])}),
         required=('int', 'float', 'str', 'bool', 'NoneType', 'list', 'tuple', 'dict', 'bytes', 'Opaque', 'XLError', 'frozenset', 'EqAny', 'EqRaises', 'EqElementwise', 'underscore', 'letters', 'builtin-name'),
         nontrivial=lambda c: not isinstance(c['value'], (int, str)) or isinstance(c['value'], bool) or '_' in c['name'],
         rule='a name of the identifier grammar bound to a value of any Python type (numbers incl. nan/inf and big ints, text, logical, blank, lists, tuples, dicts, bytes, sets, opaque objects, error values) next to up to 3 other variables: '
